@@ -27,6 +27,8 @@ class CoinSelector:
     def select(
             self, txos: List[OutputEffectiveAmountEstimator],
             strategy_name: str = None) -> List[OutputEffectiveAmountEstimator]:
+        # an output that costs more to spend than it is worth can only reduce what is available
+        txos = [txo for txo in txos if txo.effective_amount > 0]
         if not txos:
             return []
         available = sum(c.effective_amount for c in txos)
